@@ -7,12 +7,16 @@ from collections import defaultdict
 
 from core import fseq, fseqs, fcells, fbool, pseq, pseqs, pcells, guarded
 import used
+import past
 
 PROP = "C17"
 RULE = ("exhaustive: every subset A of S_0..S_3 (2^10) x every 1<=m<=n<=3 x the three input representations "
         "(list/dict/predicate); random: A inside S_0..S_5 (densities 0.1-0.9, down-closed, avoidance classes, "
         "up-closed, classes of short mesh patterns, shipped families with a few members flipped; 30% shuffled) "
-        "with m<=3 (4 thorough), n<=5; every bisc line is judged by the brute-force oracle (sound/complete/"
+        "with m<=3 (4 thorough), n<=5, a few with n=6; the containment tests and maximal_mesh_pattern_of_occurrence also on "
+        "permutations of length 9-12, 21-40, 64-70, ~200 (~401, ~1000) with occurrences planted at the ends; half of the "
+        "bisc lines after a call with the same input object and a smaller n, then a larger n, then the caller's list "
+        "changed in place and the returned dictionary emptied; every bisc line is judged by the brute-force oracle (sound/complete/"
         "irredundant on the implementation's own output, representation independence); judge/suff/cleanup lines "
         "carry the implementation's output and perturbed variants of it so that every verdict is seen False too; "
         "non-trivial: bisc = the output has a learned pattern, mine = some recorded set is non-empty, judge/suff = "
@@ -126,13 +130,40 @@ def impl_bisc(rep, m, n, Atok):
     if key in _cache:
         return _cache[key]
     used.begin()
+    box = {}
 
-    def f():
+    def f(spoil=False):
         A = _PL(Atok)
         inp = used.obj(("input", rep), lambda: make_input(rep, A, n))
+        box["inp"] = inp
         with quiet():
-            return fdict(B.bisc(inp, m, n))
-    r = guarded(f)
+            res = B.bisc(inp, m, n)
+        out = fdict(res)
+        if spoil:
+            used.spoil(res)         # the caller empties the dictionary it was handed
+        return out
+    hist = n is not None and n >= 1 and used.sel("bisc", [rep, str(m), str(n), Atok], 2)
+    if hist and n >= 2:
+        # call history on the SAME input object (the same function object / list / dictionary): first a call with
+        # a smaller n ...
+        used.T.rewind()
+        A0 = _PL(Atok)
+        inp0 = used.obj(("input", rep), lambda: make_input(rep, A0, n))
+        with quiet():
+            used.quiet(B.bisc, inp0, max(1, min(m, n - 1)), n - 1)
+        used.T.rewind()
+    r = guarded(lambda: f(spoil=hist))
+    if hist:
+        inp = box.get("inp")
+        with quiet():
+            if n <= 4 and inp is not None:
+                used.quiet(B.bisc, inp, m, n + 1)          # ... then one with a larger n ...
+            if isinstance(inp, list):
+                # ... and the caller's list changed in place, passed again, changed back
+                extra = Perm((0, 1)) if not any(tuple(p) == (0, 1) for p in inp) else Perm((1, 0, 2, 3, 4))
+                inp.append(extra)
+                used.quiet(B.bisc, inp, m, n)
+                inp.pop()
     used.T.rewind()
     r2 = guarded(f)             # once more on the same permutation objects and the same input container
     if r2 != r:
@@ -147,12 +178,22 @@ def pn(tok):
     return None if tok == "N" else int(tok)
 
 
+def _mk(p, salt):
+    return past.mkperm(p, salt) if used.is_perm(p) and len(p) <= 410 else Perm(p)
+
+
 def _PL(tok):
-    """the permutations of a token as *used* objects (hashed, compared, searched with), built once per line"""
+    """the permutations of a token as *used* objects (hashed, compared, searched with), built once per line; for a
+    deterministic sixth of the tokens they have a longer past (used / derived from a used object by another API
+    route: past.mkperm)"""
+    if used.sel("PL", [tok], 6):
+        return [used.obj(("P", i, p), lambda p=p, i=i: _mk(p, i)) for i, p in enumerate(pseqs(tok))]
     return [used.obj(("P", i, p), lambda p=p: Perm(p), lambda o: used.warm_perm(o, 0)) for i, p in enumerate(pseqs(tok))]
 
 
 def _P1(tok):
+    if used.sel("P1", [tok], 2):
+        return used.obj(("P1", tok), lambda: _mk(pseq(tok), 7))
     return used.obj(("P1", tok), lambda: Perm(pseq(tok)), lambda o: used.warm_perm(o, 1))
 
 
@@ -164,12 +205,46 @@ def impl(op, a):
     if op == "bisc":
         return impl_bisc(a[0], int(a[1]), pn(a[2]), a[3])
     if op in ("auto", "autom"):
-        return _impl(op, a)
+        # (the oracle judges the implementation's own answer: one evaluation per line and worker process)
+        key = (op,) + tuple(a)
+        if key not in _auto_cache:
+            if len(_auto_cache) > 32:
+                _auto_cache.clear()
+            _auto_cache[key] = _limited(lambda: _impl(op, a))
+        return _auto_cache[key]
     used.begin()
     r1 = _impl(op, a)
     used.T.rewind()
     r2 = _impl(op, a)           # once more on the same permutation objects, dictionaries and learned patterns
     return r1 if r1 == r2 else "ERR:" + used.unstable(r1, r2)
+
+
+_auto_cache = {}
+AUTO_SECONDS = 600
+
+
+class _Timeout(BaseException):
+    pass
+
+
+def _alarm(signum, frame):
+    raise _Timeout()
+
+
+def _limited(fn):
+    """auto_bisc repeats learning and clean-up until a description fits: a regression in either can make it run for
+    ever; the line then fails (ERR:Timeout, which the oracle rejects) instead of hanging the run.  A line takes a
+    few seconds on the unchanged library."""
+    import signal
+    old = signal.signal(signal.SIGALRM, _alarm)
+    signal.alarm(AUTO_SECONDS)
+    try:
+        return fn()
+    except _Timeout:
+        return "ERR:Timeout"
+    finally:
+        signal.alarm(0)
+        signal.signal(signal.SIGALRM, old)
 
 
 def _impl(op, a):
@@ -393,6 +468,8 @@ def oracle(op, a):
     if op in ("auto", "autom"):
         # "avoiding the returned patterns coincides with the property on every permutation up to length 8"
         out = impl(op, a)
+        if out == "ERR:Timeout":
+            return "auto_bisc terminates (a few seconds on the unchanged library; limit %d s)" % AUTO_SECONDS
         if out == "None" or out.startswith("ERR:"):
             return None
         ms = meshes(pdict(out))
@@ -744,6 +821,61 @@ def run(ctx):
                for _ in range(rng.randrange(1, 3))]
         lines.append("mcont %s %s %s %s" % (fseq(s2), fcells(Sh), fseq(p), fshs(Rs2)))
     ctx.compare("containment-tests", lines)
+    # ---- sizes the streams above never reach: the containment tests and the maximal mesh pattern of an occurrence in
+    #      LONG permutations (9-12, 21-40, 64-70, ~200; the maximal mesh pattern also ~401 and ~1000): occurrences planted
+    #      at the very beginning / end, shaded cells in the boundary rows and columns, one point put into / just outside
+    #      a shaded cell near an end; and BiSC itself on a few sets inside S_0..S_6 (n = 6)
+    lines = []
+    f = 1 if not thorough else 8
+    for lo, hi, cnt in ((9, 12, 250 * f), (21, 40, 160 * f), (64, 70, 60 * f), (190, 210, 24 * f), (395, 405, 8 * f), (995, 1005, 4 * f)):
+        for _ in range(cnt):
+            n = rng.randrange(lo, hi + 1)
+            k = rng.randrange(1, 4) if hi <= 40 else rng.randrange(1, 3) if hi <= 70 else 1   # (cubic in the length for three points)
+            s = list(rng.sample(range(n), n))
+            # an occurrence with prescribed ends
+            c = sorted(rng.sample(range(n), k))
+            r = rng.random()
+            if r < 0.3:
+                c[0] = 0
+            elif r < 0.6:
+                c[-1] = n - 1
+            c = sorted(set(c))
+            k = len(c)
+            vals = [s[i] for i in c]
+            srt = sorted(vals)
+            p = tuple(srt.index(v) for v in vals)
+            lines.append("maxmesh %s %s" % (fseq(s), fseq(c)))
+            if hi > 210:
+                continue
+            full = {(x, y) for x in range(k + 1) for y in range(k + 1)}
+            free = full - hit(s, c)
+            border = {(x, y) for (x, y) in full if x in (0, k) or y in (0, k)}
+            Rs = []
+            for _ in range(rng.randrange(1, 4)):
+                q = rng.random()
+                if q < 0.35:
+                    R = set(free)                              # the maximal shading of this occurrence: contained
+                elif q < 0.6 and free != full:
+                    R = set(free) | {rng.choice(sorted(full - free))}       # one cell too many for THIS occurrence
+                elif q < 0.8:
+                    R = {x for x in border if rng.random() < 0.5}
+                else:
+                    R = {x for x in full if rng.random() < 0.3}
+                Rs.append(R)
+            lines.append("pcont %s %s %s" % (fseq(s), fseq(p), fshs(Rs)))
+            if hi <= 40 and (n <= 24 or k <= 2) and rng.random() < 0.4:
+                Sh = {(x, y) for x in range(n + 1) for y in range(n + 1) if rng.random() < rng.choice([0.6, 0.9, 0.97])}
+                Rs2 = [{x for x in full if rng.random() < 0.2} for _ in range(rng.randrange(1, 3))]
+                lines.append("mcont %s %s %s %s" % (fseq(s), fcells(Sh), fseq(p), fshs(Rs2)))
+    for _ in range(10 if not thorough else 120):
+        A = rng.choice([avoid_class, mesh_class, down_closed])(rng, 6)
+        if rng.random() < 0.3:
+            A = list(A)
+            rng.shuffle(A)
+        m = rng.randrange(2, 4)
+        lines.append("bisc %s %d 6 %s" % (rng.choice(["list", "dict", "pred"]), m, fseqs(A)))
+    rng.shuffle(lines)
+    ctx.compare("large", lines)
     # ---- the automatic driver on cheap shipped properties (not modelled in Lean: oracle only)
     if thorough:
         ctx.compare("auto-bisc", ["auto smooth", "auto forest_like", "auto baxter", "auto simsun"], use_model=False)
